@@ -88,7 +88,7 @@ pub static MODE: AtomicU8 = AtomicU8::new(0);
 pub struct Walk;
 pub static WALK: Walk = Walk;
 impl<C: Collect + for<'l> LookupSpan<'l>> Subscribe<C> for &'static Walk {
-    fn on_event(&self, _: &Event<'_>, ctx: Context<'_, C>) {
+    fn on_event(&self, ev: &Event<'_>, ctx: Context<'_, C>) {
         bump(&W_CALLS);
         let start = Id::from_u64(START.load(Ordering::Relaxed));
         W_EXISTS.store(ctx.exists(&start) as u8, Ordering::Relaxed);
@@ -121,6 +121,22 @@ impl<C: Collect + for<'l> LookupSpan<'l>> Subscribe<C> for &'static Walk {
             }
             None => W_SCOPE_SOME.store(0, Ordering::Relaxed),
         }
+        }
+        if mode == 3 {
+            // the span an event belongs to (explicit root / explicit parent / contextual)
+            if let Some(sp) = ctx.event_span(ev) { W_SPAN.store(sp.id().into_u64(), Ordering::Relaxed); }
+            match ctx.event_scope(ev) {
+                Some(scope) => {
+                    W_SCOPE_SOME.store(1, Ordering::Relaxed);
+                    let mut n = 0;
+                    for s in scope {
+                        if n < N { W_SCOPE[n].store(s.id().into_u64(), Ordering::Relaxed); }
+                        n += 1;
+                    }
+                    W_NSCOPE.store(n, Ordering::Relaxed);
+                }
+                None => W_SCOPE_SOME.store(0, Ordering::Relaxed),
+            }
         }
         if mode == 2 {
         if let Some(c) = ctx.lookup_current() { W_CURRENT.store(c.id().into_u64(), Ordering::Relaxed); }
@@ -240,6 +256,53 @@ fn c07_ctx_current() {
     kani::cover!(cur != 0 && seen == NONE);
     kani::cover!(cur == 2 && seen == 2);
 }
+
+fn vis_of(b: &[u64; N], k: u64) -> bool { if k == 1 { visible(b[0]) } else if k == 2 { visible(b[1]) } else { visible(b[2]) } }
+
+/// C06/C07: the span an event belongs to, as a layer sees it through `Context::event_span` / `event_scope`:
+/// an explicit root has none whatever is current, an explicit parent overrides the current span, a contextual event
+/// gets the thread's current span - each subject to the layer's filter.
+macro_rules! event_span_harness {
+    ($name:ident, $kind:expr) => {
+        #[kani::proof]
+        #[kani::unwind(6)]
+        #[kani::stub(std::rt::thread_cleanup, noop)]
+        #[kani::stub(core::fmt::write, fmt_write_stub)]
+        fn $name() {
+            cstack!(st);
+            let (b, _, _) = setup();
+            let cur: u8 = kani::any();
+            kani::assume(cur as usize <= N);
+            M_CUR.store(cur, Ordering::Relaxed);
+            let par: u64 = kani::any();
+            kani::assume(par >= 1 && par <= N as u64);
+            MODE.store(3, Ordering::Relaxed);
+            let m = ev_meta(3);
+            let vs = m.fields().value_set(&[]);
+            let ev = match $kind {
+                0 => Event::new_child_of(None, m, &vs),
+                1 => Event::new_child_of(Id::from_u64(par), m, &vs),
+                _ => Event::new(m, &vs),
+            };
+            if st.event_enabled(&ev) { st.event(&ev); }
+            assert!(ld(&W_CALLS) == 1);
+            let seen = W_SPAN.load(Ordering::Relaxed);
+            let want = match $kind {
+                0 => NONE,
+                1 => if vis_of(&b, par) { par } else { NONE },
+                _ => if cur != 0 && vis_of(&b, cur as u64) { cur as u64 } else { NONE },
+            };
+            assert!(seen == want);
+            assert!((W_SCOPE_SOME.load(Ordering::Relaxed) == 1) == (want != NONE));
+            if want != NONE { assert!(W_SCOPE[0].load(Ordering::Relaxed) == want); }
+            kani::cover!(cur != 0 && cur as u64 != par && vis_of(&b, cur as u64) && vis_of(&b, par));
+            kani::cover!(want == NONE && cur != 0);
+        }
+    };
+}
+event_span_harness!(c06_ctx_event_root, 0);
+event_span_harness!(c06_ctx_event_explicit_parent, 1);
+event_span_harness!(c06_ctx_event_contextual, 2);
 
 #[kani::proof]
 #[kani::unwind(6)]
